@@ -58,7 +58,8 @@ META = {
                 "as are the exact finite-N statements around the limit: the weights on a linear-Gaussian observation are "
                 "the self-normalised Kalman-posterior/proposal density ratios (pf_weights_target_kalman) and multinomial "
                 "resampling is unbiased with variance <= E_w[x^2]/N (pf_resample_mean_var), with the explicit concentration "
-                "bound P(|estimate - weighted mean| >= eps) <= E_w[x^2]/(N eps^2) (pf_resample_concentration), and for the whole "
+                "bound P(|estimate - weighted mean| >= eps) <= E_w[x^2]/(N eps^2) (pf_resample_concentration; hence -> 0 as N -> inf, pf_resample_tendsto, with N >= E_w[x^2]/(delta eps^2) "
+                "sufficient for probability <= delta, pf_resample_converges), and for the whole "
                 "call E[output] = self-normalised importance-sampling estimate of the Kalman-posterior expectation "
                 "(pf_call_mean_targets_kalman). What is not proved is the law "
                 "of large numbers for the self-normalised estimator over a continuous proposal.",
